@@ -125,7 +125,9 @@ func callGFunction(L *LState, tailcall bool) bool {
 		wantret = gfnret
 	}
 
-	if tailcall && L.Parent != nil && L.stack.Sp() == 1 {
+	// the bottom frame of a coroutine (a Go function tail-called by it, or a Go function that is
+	// the coroutine's body): its results end the coroutine
+	if L.Parent != nil && L.stack.Sp() == 1 {
 		switchToParentThread(L, wantret, false, true)
 		return true
 	}
